@@ -577,6 +577,9 @@ fn file_key_behind_prefix(check: &Check) {
                 let mut a = vcheck::engine::guard("Archive::open", || wow_mpq::Archive::open(&q))?
                     .map_err(|e| Fail::new("file-key-behind-prefix:archive-does-not-open", format!("{version:?} behind {units}×512 bytes: {e}")))?;
                 for (n, d, fix, m) in &files {
+                  // the key comes from the plain name (behind the last separator of either kind): both spellings
+                  for n in [n.clone(), n.replace('\\', "/"), n.to_ascii_uppercase().replacen('\\', "/", 1)] {
+                    let n = &n;
                     match vcheck::engine::guard("Archive::read_file", || a.read_file(n))? {
                         Ok(g) if g == *d => {}
                         other => {
@@ -586,6 +589,7 @@ fn file_key_behind_prefix(check: &Check) {
                             ))
                         }
                     }
+                  }
                 }
                 check.count(&format!("file-key-behind-prefix:{version:?}:{units}-units"), units > 0);
             }
